@@ -22,7 +22,7 @@ RULE = ('W in {1 home entry, 1 home + 1 volume entry, 2 home entries} x M subset
         'non-UTF-8, no Path, no DeletionDate, bad date, the same two sharing the Path of a well-formed entry, info without payload, payload without info, directory named x.trashinfo, files named .trashinfo / ..trashinfo / ...trashinfo, a Path escape that is not UTF-8} x all permutations of info/ (<= 4!) x '
         'readers {list, list --files, list --size, restore date|path|none, rm exact, rm *, empty, empty 0, empty 7}; non-trivial = a malformed neighbour was read before a well-formed entry; '
         'distinct = (reader, neighbour kinds, outcome)')
-MK = ['nontrashinfo', 'empty', 'header', 'binary', 'nonutf8', 'nopath', 'nodate', 'baddate', 'nopayload', 'orphan', 'dirinfo', 'nodate-samepath', 'baddate-samepath', 'dangling-link-info', 'loop-link-info', 'tzdate', 'noname-empty', 'noname-valid', 'dotname-valid', 'dotdotname-valid', 'badescape', 'two-strays', 'short-stray', 'nul-path', 'empty-path']
+MK = ['nontrashinfo', 'empty', 'header', 'binary', 'nonutf8', 'nopath', 'nodate', 'baddate', 'nopayload', 'orphan', 'dirinfo', 'nodate-samepath', 'baddate-samepath', 'dangling-link-info', 'loop-link-info', 'tzdate', 'noname-empty', 'noname-valid', 'dotname-valid', 'dotdotname-valid', 'badescape', 'two-strays', 'short-stray', 'nul-path', 'empty-path', 'maxdate-nopath', 'long-orphan']
 READERS = ['list', 'list-files', 'list-size', 'restore-date', 'restore-path', 'restore-none', 'restore-cwd', 'rm-exact', 'rm-star', 'empty', 'empty0', 'empty7']
 WSETS = ['h1', 'h1+v1', 'h2']
 TD = scen.HOME_TRASH
@@ -36,7 +36,7 @@ def dimensions(tier):
 
 def n_info_entries(ws, ms):
     n = {'h1': 1, 'h1+v1': 1, 'h2': 2}[ws]
-    return n + sum((2 if m == 'two-strays' else 1) for m in ms if m != 'orphan')
+    return n + sum((2 if m == 'two-strays' else 1) for m in ms if m not in ('orphan', 'long-orphan'))
 
 
 def cases(tier):
@@ -101,6 +101,10 @@ def build(ws, ms):
             W.file(TD + '/info/notes.txt', 'hello\n').file(TD + '/info/zz-more.bak', 'again\n')
         elif m == 'short-stray':
             W.file(TD + '/info/old0.bak', 'a name shorter than the .trashinfo suffix\n')
+        elif m == 'maxdate-nopath':
+            scen.add_trashed(W, TD, 'a-maxdate', None, raw='[Trash Info]\nDeletionDate=9999-12-31T23:59:59\n', payload=None)
+        elif m == 'long-orphan':
+            W.file(TD + '/files/' + 'O' * 250, 'a payload without info whose name leaves no room for the suffix\n')
         elif m == 'nul-path':
             scen.add_trashed(W, TD, 'k-nulpath', None, raw='[Trash Info]\nPath=/elsewhere/nu\x00l\nDeletionDate=2020-01-01T00:00:00\n')
         elif m == 'empty-path':
